@@ -373,15 +373,19 @@ fn main() {
         flag: Option<&'static str>,
         deps: Vec<(&'static str, &'static str)>,
         omit_name_from_dir: bool,
+        /// where the WAC source lives (the default `deps` directory is relative to the working
+        /// directory, not to the source file)
+        source: &'static str,
     }
     let variants = vec![
-        DepsVariant { label: "default-dir", dir: "deps", flag: None, deps: vec![], omit_name_from_dir: false },
-        DepsVariant { label: "deps-dir-flag", dir: "alt", flag: Some("alt"), deps: vec![], omit_name_from_dir: false },
-        DepsVariant { label: "dep-override", dir: "deps", flag: None, deps: vec![("t:name", "elsewhere/n.wasm")], omit_name_from_dir: true },
-        DepsVariant { label: "dep-override-beats-dir", dir: "deps", flag: None, deps: vec![("t:name", "elsewhere/n2.wasm")], omit_name_from_dir: false },
-        DepsVariant { label: "dep-twice-last-wins", dir: "deps", flag: None, deps: vec![("t:name", "elsewhere/n.wasm"), ("t:name", "elsewhere/n2.wasm")], omit_name_from_dir: true },
-        DepsVariant { label: "wrong-deps-dir", dir: "deps", flag: Some("nowhere"), deps: vec![], omit_name_from_dir: false },
-        DepsVariant { label: "dangling-dep", dir: "deps", flag: None, deps: vec![("t:name", "elsewhere/missing.wasm")], omit_name_from_dir: false },
+        DepsVariant { label: "default-dir", dir: "deps", flag: None, deps: vec![], omit_name_from_dir: false, source: "input.wac" },
+        DepsVariant { label: "deps-dir-flag", dir: "alt", flag: Some("alt"), deps: vec![], omit_name_from_dir: false, source: "input.wac" },
+        DepsVariant { label: "dep-override", dir: "deps", flag: None, deps: vec![("t:name", "elsewhere/n.wasm")], omit_name_from_dir: true, source: "input.wac" },
+        DepsVariant { label: "dep-override-beats-dir", dir: "deps", flag: None, deps: vec![("t:name", "elsewhere/n2.wasm")], omit_name_from_dir: false, source: "input.wac" },
+        DepsVariant { label: "dep-twice-last-wins", dir: "deps", flag: None, deps: vec![("t:name", "elsewhere/n.wasm"), ("t:name", "elsewhere/n2.wasm")], omit_name_from_dir: true, source: "input.wac" },
+        DepsVariant { label: "wrong-deps-dir", dir: "deps", flag: Some("nowhere"), deps: vec![], omit_name_from_dir: false, source: "input.wac" },
+        DepsVariant { label: "source-in-subdir", dir: "deps", flag: None, deps: vec![], omit_name_from_dir: false, source: "sub/input.wac" },
+        DepsVariant { label: "dangling-dep", dir: "deps", flag: None, deps: vec![("t:name", "elsewhere/missing.wasm")], omit_name_from_dir: false, source: "input.wac" },
     ];
     let all_compositions = compositions(&mut r, if thorough { 40 } else { 1 });
     let mut combo_no = 0usize;
@@ -420,8 +424,9 @@ fn main() {
                 }
                 fs::write(cwd.join("elsewhere/n.wasm"), &fixtures[0].1).unwrap();
                 fs::write(cwd.join("elsewhere/n2.wasm"), &name2).unwrap();
-                fs::write(cwd.join("input.wac"), &source).unwrap();
-                let path = if clabel == "ok" && mask == 15 && v.label == "default-dir" { "missing.wac" } else { "input.wac" };
+                fs::create_dir_all(cwd.join("sub")).unwrap();
+                fs::write(cwd.join(v.source), &source).unwrap();
+                let path = if clabel == "ok" && mask == 15 && v.label == "default-dir" { "missing.wac" } else { v.source };
 
                 let mut argv: Vec<String> = vec!["compose".into()];
                 if let Some(d) = v.flag {
